@@ -120,7 +120,10 @@ def to_timedelta(obj, numbers_as=None):
     if isinstance(obj, timedelta):
         return obj
     elif isinstance(obj, Number):
-        return timedelta(**{numbers_as: int(obj)})
+        if isinstance(obj, np.generic):
+            # numpy scalars are not accepted by timedelta
+            obj = obj.item()
+        return timedelta(**{numbers_as: obj})
     else:
         return pd.to_timedelta(obj).to_pytimedelta()
 
